@@ -204,6 +204,13 @@ impl PossibleCycles {
         self.size.set(0);
     }
 
+    #[cfg(feature = "verif-hooks")]
+    #[inline]
+    pub(crate) fn verif_reset(&self) {
+        self.first.set(None);
+        self.size.set(0);
+    }
+
     #[inline]
     pub(crate) fn size(&self) -> usize {
         self.size.get()
@@ -339,6 +346,7 @@ impl PossibleCycles {
     #[cfg(any(
         feature = "pedantic-debug-assertions",
         feature = "finalization",
+        feature = "verif-hooks",
         all(test, feature = "std") // Unit tests
     ))]
     pub(crate) fn iter(&self) -> Iter {
